@@ -366,6 +366,10 @@ class ProtocolContext:
             self._lock.release()
             return
 
+        if isinstance(self._state, Inactive):  # connection lost since this was scheduled
+            self._lock.release()  # what is queued waits for a connection (or times out)
+            return
+
         while True:
             try:
                 *_, self._cmd, self._qos, self._fut = self._que.get_nowait()
